@@ -99,6 +99,16 @@ def apply_site_rewrites(text, rewrites, log, where):
     for rw in rewrites:
         old, new = rw[0], rw[1]
         cnt = rw[2] if len(rw) > 2 else 1
+        if cnt == "*":      # optional rewrite: any number of occurrences, including none
+            if isinstance(old, re.Pattern):
+                k = len(old.findall(text))
+                text = old.sub(new, text)
+            else:
+                k = text.count(old)
+                text = text.replace(old, new)
+            if k:
+                log.append({"where": where, "kind": "site-optional", "old": old.pattern if isinstance(old, re.Pattern) else old, "new": new, "count": k})
+            continue
         if isinstance(old, re.Pattern):
             found = len(old.findall(text))
             if found != cnt:
